@@ -225,6 +225,11 @@ func (s *c35sim) answer(id cppki.TRCID) ([]byte, string, bool) {
 				r.Fault("fetch.forged." + rule)
 				return s.p.build(f), f.note, false
 			}
+		case 4:
+			if r.Choice("fetch.crash", 2) == 1 {
+				r.Fault("as.crash-during-catch-up")
+				return nil, "crash", false
+			}
 		}
 	}
 	if honest == nil {
@@ -255,9 +260,13 @@ func (s *c35sim) notify(id cppki.TRCID, what string) {
 	}
 	isd := int(id.ISD)
 	lb, ls, known := s.modelLatest(isd)
-	err := s.n.notify(id)
+	err, crashed := s.n.notify(id)
 	calls := s.n.f.calls
-	r.Logf("notify %v (%s) while latest B%d-S%d known=%v: err=%v fetches=%s", id, what, lb, ls, known, err != nil, callsString(calls))
+	r.Logf("notify %v (%s) while latest B%d-S%d known=%v: err=%v crashed=%v fetches=%s", id, what, lb, ls, known, err != nil, crashed, callsString(calls))
+	if crashed {
+		// the process died while a fetch was outstanding; it comes back with whatever its database file holds
+		s.n.restart()
+	}
 	ev := fmt.Sprintf("notify:%s", what)
 	fail := func(check, format string, args ...any) {
 		r.Fail(check, ev, "notification %v (%s) while holding B%d-S%d: "+format+"; fetches %s", append([]any{id, what, lb, ls}, append(args, callsString(calls))...)...)
@@ -319,7 +328,7 @@ func (s *c35sim) notify(id cppki.TRCID, what string) {
 			fail("c35-continued-after-failure", "%d fetches after the first step that could not be fetched or verified", len(calls)-i)
 			return
 		}
-		if (err != nil) != stopped {
+		if !crashed && (err != nil) != stopped {
 			fail("c35-result-lies", "NotifyTRC error=%v but the catch-up %s", err != nil, map[bool]string{true: "stopped at a failing step", false: "was complete"}[stopped])
 			return
 		}
@@ -630,8 +639,11 @@ func runC35(r *core.Run, faulty bool) {
 func (s *c35sim) pickNotification() (cppki.TRCID, string) {
 	r := s.r
 	isd := 1
-	if r.Choice("nt.isd", 5) == 4 {
-		isd = 2 + r.Choice("nt.isd.which", 2)
+	switch k := r.Choice("nt.isd", 12); {
+	case k == 11:
+		isd = 2 + r.Choice("nt.isd.which", 2) // possibly an ISD the AS has never heard of
+	case k >= 8 && s.chainOf(2, 1) != nil:
+		isd = 2
 	}
 	lb, ls, known := s.modelLatest(isd)
 	if !known {
